@@ -7,11 +7,14 @@ import (
 	"errors"
 	"log/slog"
 	"net"
+	"time"
 
 	"github.com/quic-go/quic-go"
 
 	"example.com/scion-time/net/udp"
 )
+
+const exchangeTimeout = 5 * time.Second
 
 // MaxCookieLen is the size of the largest cookie that still fits into an NTS
 // request together with seven placeholders of the same size.
@@ -76,6 +79,16 @@ func (f *Fetcher) exchangeKeys(ctx context.Context) error {
 		var conn *tls.Conn
 		serverAddr := net.JoinHostPort(f.TLSConfig.ServerName, f.Port)
 		conn, f.data, err = dialTLS(serverAddr, &f.TLSConfig)
+		if err != nil {
+			return err
+		}
+		defer func() { _ = conn.Close() }()
+		// a server that stops talking must not block the caller beyond its deadline
+		deadline, ok := ctx.Deadline()
+		if !ok {
+			deadline = time.Now().Add(exchangeTimeout)
+		}
+		err = conn.SetDeadline(deadline)
 		if err != nil {
 			return err
 		}
